@@ -424,10 +424,18 @@ fn nested_case(r: &mut Prng, big: bool) -> Case {
         // besides evaluating the next level, maybe one more re-entrant action
         if let Some((prog, funcs)) = inner_prog.take() {
             let ctx = CtxSpec { vars: vec![("v".into(), Val::int(level as i64))], funcs };
-            if r.chance(1, 2) {
-                actions.push(Op::Exec { prog: Prog::one(prog), ctx: CtxRef::Fresh(ctx) });
+            // every other level: the handler evaluates on a context the host built BEFORE the outermost
+            // evaluation started (a kept slot) instead of one it builds inside the handler
+            let ctx = if level % 2 == 0 {
+                case.slots.push(ctx);
+                CtxRef::Slot(case.slots.len() - 1)
             } else {
-                actions.push(Op::ParseExec { prog: Prog::one(prog), ctx: CtxRef::Fresh(ctx), times: 1 + r.below(2) as u8 });
+                CtxRef::Fresh(ctx)
+            };
+            if r.chance(1, 2) {
+                actions.push(Op::Exec { prog: Prog::one(prog), ctx });
+            } else {
+                actions.push(Op::ParseExec { prog: Prog::one(prog), ctx, times: 1 + r.below(2) as u8 });
             }
         }
         match r.below(6) {
